@@ -241,6 +241,24 @@ def check(ctx):
                 cc.add("run", "parse_sv_str", hx(top), hx("top.sv"))
                 meta[cc.id] = ("stop", "sv", top + "\n---- mid.svh ----\n" + mid + "\n---- leaf.svh ----\n" + leaf + tail_nl, len(mid_pre.encode()), "mid.svh", top)
                 cases.append(cc)
+    # 1e. the line behind an `include of a file that has no final line break (a kept `define, a one-line comment, a token last)
+    for form in ('"i.svh"', "<i.svh>"):
+        for tailtxt in ("`define W 8", "wire q; // c", "wire q;", "`timescale 1ns/1ps", "wire q; /* c */"):
+            stop = r.choice(STOP)
+            pre = "module m;\n`include %s\nwire a" % form
+            src = pre + stop + "b;\nendmodule\n"
+            cc = Case("m%d" % n); n += 1
+            cc.add("want", "tree").add("file", hx("i.svh"), hx(tailtxt)).add("incdir", hx("."))
+            cc.add("run", "parse_sv_str", hx(src), hx("top.sv"))
+            meta[cc.id] = ("stop", "sv", src + "\n---- i.svh ----\n" + tailtxt, len(pre.encode()), "top.sv", src)
+            cases.append(cc)
+            # and a deleted delimiter on that line
+            src2 = "module m;\n`include %s\nassign x = (a + b;\nendmodule\n" % form
+            cc = Case("m%d" % n); n += 1
+            cc.add("want", "tree").add("file", hx("i.svh"), hx(tailtxt)).add("incdir", hx("."))
+            cc.add("run", "parse_sv_str", hx(src2), hx("top.sv"))
+            meta[cc.id] = ("delim", "sv", src2, 0, ")", src2)
+            cases.append(cc)
     # 2. preprocessor-level lexical faults
     for t, fault in [("a \"unterminated\n", 2), ("x /* open\n", 2), ("y \\ z\n", 2), ("module m; \"s\" wire \"q\n", 19), ("ok\n`include \"i.svh\"\n", None)]:
         cc = Case("m%d" % n); n += 1
